@@ -214,6 +214,27 @@ pub fn judge(ctx: &mut Ctx, index: u64, bytes: &[u8], rt: &RoundTrip, what: &str
             ctx.known("D11-scroll-speed-below-0.1", "taiko/mania scroll speed below 0.1 comes back as 0.1 (written through the slider-velocity clamp)".into());
         }
     }
+    // D20: a sample file name ending in whitespace is written at the end of the line, where the reader's
+    // trailing trim removes the whitespace
+    {
+        let before = diffs.len();
+        diffs.retain(|d| {
+            if let Some(rest) = d.strip_prefix("object[") {
+                if let Some((i, field)) = rest.split_once("]:") {
+                    if let Ok(i) = i.parse::<usize>() {
+                        return !(field == "samples" && k1_eff.objects.get(i).is_some_and(|o| o.d20));
+                    }
+                }
+            }
+            true
+        });
+        if diffs.len() != before {
+            ctx.known("D20-sample-file-name-ending-in-whitespace", "a sample file name that ends in whitespace (reachable only when further ':' parts follow it in the input) is written last on its line and loses the whitespace to the reader's trailing trim".into());
+        }
+        if diffs.is_empty() {
+            return true;
+        }
+    }
     // D13: Catmull path whose second control point equals the slider position loses that point
     let mut d13_hit = false;
     diffs.retain(|d| {
